@@ -144,6 +144,23 @@ def check_value(runs, order):
     j = f.join(["x", fmtstr("y", "red"), ""])
     if j.s != txt.join(["x", "y", ""]):
         return f".join: text {j.s!r}"
+    # join with FmtStr items (the first item too, the same item twice), then the items are used again: they are values, every later
+    # method on them still agrees with str on their text
+    a, b = build(runs), fmtstr("q", "blue")
+    ta, tb = a.s, b.s
+    try:
+        j = f.join([a, b, a])
+    except Exception as e:      # noqa: BLE001
+        return f".join([a, b, a]) raised {type(e).__name__}: {e}"
+    if j.s != txt.join([ta, tb, ta]):
+        return f".join([a, b, a]): text {j.s!r}, str gives {txt.join([ta, tb, ta])!r}"
+    for who, v, t, cs in (("first item", a, ta, P), ("second item", b, tb, [("q", (("fg", 34),))]), ("separator", f, txt, P)):
+        if v.s != t or cells(v) != cs or len(v) != len(t):
+            return f".join([a, b, a]) changed its {who}: text is now {v.s!r} (was {t!r})"
+        if (v + "!").s != t + "!" or v.upper().s != t.upper() or v.ljust(len(t) + 1).s != t.ljust(len(t) + 1):
+            return f"after .join([a, b, a]) the {who} no longer agrees with str: (v + '!').s == {(v + '!').s!r}"
+    if cells(f) != P or f.s != txt:
+        return f"a method changed the value it was called on: text is now {f.s!r} (was {txt!r})"
     return ""
 
 
